@@ -143,6 +143,27 @@ claim("C08",
       "(D19), short spans in KeplerNum (D20), Sgp4 results sharing one Cov (D21, pinned by the suite).",
       "ownership/freshness abstract interpretation on reaching definitions + sibling comparison + ast pattern rules", "§3 C08")
 
+claim("C14",
+      "Clause-level: the representation invariant that makes the result path independent — the reference frame is "
+      "assigned only at attachment, the local axes are always built from the snapshot kept in that frame, and nothing "
+      "inside Cov moves that snapshot; the congruence M C M^T with one M = m2 @ m1, transposition only on the "
+      "local->reference arm, identity arms when frames coincide, commit after everything that can raise; a covariance "
+      "expressed in its state's frame follows the state after the state's own frame is committed.",
+      "Not decided: the spectrum / positive semi-definiteness as numbers (follows from congruence with an orthogonal M, "
+      "which is C02/C17's clause), conversion back restoring the matrix to rounding.",
+      "ast who-may-write census on Cov's state + pattern rules on the two-step conversion", "§3 C14")
+
+claim("C15",
+      "Clause-level: StateVector.copy copies every copyable item, builds on a fresh buffer and never writes to the "
+      "receiver; as_orbit / as_statevector results are fresh (ownership abstract interpretation); the form and frame "
+      "setters compute before they commit and restore the form on failure; reading and writing by name use the same "
+      "alias map and decision order against the current form, with alias closure; pickling keys agree, array "
+      "finalisation copies the metadata dict, Orbit<->StateVector conversion keeps everything but the propagator, "
+      "Cov.copy is complete and snapshots its state.",
+      "Not decided: behaviour for sequences of operations as executed (only the per-operation invariants that make any "
+      "sequence safe). Known finding D31: Man objects inside the maneuvers list are shared by copy().",
+      "ownership/freshness abstract interpretation + ast pattern rules (compute-then-commit, sibling agreement)", "§3 C15")
+
 NOT_YET = "check not built yet in this revision; rules designed in DESIGN.md §3 — claimed once its checker is committed"
 
 ALL = [f"C{i:02d}" for i in range(1, 21)]
